@@ -10,6 +10,8 @@ import Driver.DispFam2
 import Driver.ValidFam
 import Driver.StyleFam
 import Driver.StyleStateFam
+import Driver.StyleCopyFam
+import Driver.StyleEffFam
 import Driver.TrimeshFam
 import Driver.PolyFam
 import Driver.SymFam
@@ -39,6 +41,8 @@ def stepLine (st : St) (line : String) : St × String :=
   | "valid" :: _ => (st, ValidFam.step (line.drop 6).toString)
   | "style" :: _ => (st, StyleFam.step (line.drop 6).toString)
   | "sstate" :: _ => (st, StyleStateFam.step (line.drop 7).toString)
+  | "seff" :: _ => (st, StyleEffFam.step (line.drop 5).toString)
+  | "scopy" :: _ => (st, StyleCopyFam.step (line.drop 6).toString)
   | "trimesh" :: _ => (st, TrimeshFam.step (line.drop 8).toString)
   | "poly" :: _ => (st, PolyFam.step (line.drop 5).toString)
   | "disp" :: _ => (st, DispFam2.step (line.drop 5).toString)
